@@ -427,7 +427,13 @@ RECURSIVE ResolveFrom(_, _, _)
 ResolveFrom(rs, t, i) ==
   IF i > Len(rs) THEN "str"
   ELSE IF FirstChar(t) \in rs[i][2] /\ FullMatch(rs[i][3], t) THEN rs[i][1] ELSE ResolveFrom(rs, t, i + 1)
-DumperTag(t) == ResolveFrom(StockResolvers, t, 1)       \* what safe_dump thinks a plain t would mean
+\* the dumper (get_yaml_default_dumper, since the repair f3cd0b1): the stock table with its float entry replaced by the
+\* loader's pattern, appended; before the repair yaml_dump was yaml.safe_dump (StockResolvers), and a Path such as
+\* '1e3' was written plain and read back as a float (the former named deviation yaml-str-as-float)
+DumperResolvers == << StockResolvers[1], StockResolvers[3], StockResolvers[4], StockResolvers[5], StockResolvers[6], StockResolvers[7],
+                      <<"float", NumFirst, LoaderFloat>> >>
+DumperTag(t) == ResolveFrom(DumperResolvers, t, 1)      \* what jsonargparse's dumper thinks a plain t would mean
+StockDumperTag(t) == ResolveFrom(StockResolvers, t, 1)  \* what yaml.safe_dump thinks (the trees before f3cd0b1)
 LoaderTag(t) == ResolveFrom(LoaderResolvers, t, 1)      \* what jsonargparse's loader makes of a plain t
 
 \* ---- texts on which load_value raises instead of returning (named deviation "loader-crash") ----
